@@ -203,16 +203,19 @@ def r1_who_writes_pos(facts, rep):
 def _step_increment(b, s, facts):
     """The value assigned to pos in step is pos + len_utf8(c)."""
     rv = s["rv"]
-    op = rv["op"] if rv["k"] == "use" else None
-    if op is None:
-        return False, "pos is assigned a %s" % rv["k"]
     defs = flow.Defs(b)
-    # find the Add feeding it
     target = None
-    l = F.op_local(op) if not op["place"]["proj"] else op["place"]["local"]
-    for kind, bid, idx, pl in defs.of(l):
-        if kind == "assign" and pl["rv"]["k"] == "binop" and pl["rv"]["op"].startswith("Add"):
-            target = pl["rv"]
+    if rv["k"] == "binop" and rv["op"].startswith("Add"):
+        target = rv
+    else:
+        op = rv["op"] if rv["k"] == "use" else None
+        if op is None or op["k"] not in ("copy", "move"):
+            return False, "pos is assigned a %s" % rv["k"]
+        # find the Add feeding it
+        l = op["place"]["local"]
+        for kind, bid, idx, pl in defs.of(l):
+            if kind == "assign" and pl["rv"]["k"] == "binop" and pl["rv"]["op"].startswith("Add"):
+                target = pl["rv"]
     if target is None:
         return False, "pos is not assigned the result of an addition"
     fa = flow.field_origins(b, target["a"]) | flow.field_origins(b, target["b"])
